@@ -318,6 +318,34 @@ def w(x: uint256):
 }
 
 
+# builtin (stdlib) modules are cached per process together with their analysed function types: per-compilation state left
+# on them (function ids: /repo fix 0c0ec6e) shows when a program using `math` is compiled after ANOTHER program using it,
+# so two programs: one calls it from the constructor (there the id is not the one it gets in a runtime-only program)
+CORPUS["stdlib_ctor"] = {"target": "sq.vy", "files": {"sq.vy": """
+import math
+r: public(uint256)
+
+@deploy
+def __init__():
+    self.r = math.isqrt(1764)
+"""}}
+CORPUS["stdlib_runtime"] = {"target": "sr.vy", "files": {"sr.vy": """
+import math
+
+@internal
+def foo(x: uint256) -> uint256:
+    return x + 1
+
+@external
+def a(x: uint256) -> uint256:
+    return math.isqrt(self.foo(x))
+
+@external
+def b(x: uint256) -> uint256:
+    return self.foo(math.isqrt(x) + 1)
+"""}}
+
+
 # --------------------------------------------------------------------------- control-flow heavy programs (hash-seed sweep)
 # Anything in a backend that iterates a python set/dict of *strings* (variable names, labels) shows only on programs
 # with several simultaneously live values at control-flow joins, so the sweep uses programs with many loop-carried /
